@@ -73,7 +73,7 @@ func zzNewHdr(name string, id int) *zzH {
 	if zz.Bool(name + ".nil") {
 		return nil
 	}
-	return &zzH{chain: zz.Str(name + ".chain"), height: zz.U64(name + ".height"), t: zz.Time(name + ".time"), id: id}
+	return &zzH{chain: zz.StrN(name+".chain", zz.Param("CHAINLEN", 52)), height: zz.U64(name + ".height"), t: zz.Time(name + ".time"), id: id}
 }
 
 // ZzC01 checks one call of Verify for every pair of headers, every instant and every type-level outcome.
